@@ -110,6 +110,12 @@ impl SwiftField for Field53B {
         //   - Starts with '/' -> party_identifier
         //   - Looks like BIC (8-11 uppercase alphanumeric) -> party_identifier
         //   - Otherwise -> location
+        if lines.len() > 2 {
+            return Err(ParseError::InvalidFormat {
+                message: "Field 53B has at most two lines (party identifier and location)"
+                    .to_string(),
+            });
+        }
         if lines.len() >= 2 {
             // Two lines: first is party_identifier, second is location
             if !lines[0].is_empty() {
